@@ -800,7 +800,7 @@ def strip_res(res):
 
 
 def run(ctx):
-    ctx.build(FILES)
+    ctx.build_with_translator(FILES)
     ctx.cov['rule'] = (
         'blended scenes (2-5 overlapping rounded Gaussians, 2-4 separate blends deblended in one call, bright stars '
         'with ~1% companions that split only under exponential/sinh levels next to segments containing one planted '
